@@ -39,7 +39,8 @@ def strategy_(draw, tier):
     bnd = draw(st.sampled_from([0, 0, 1, 2, 5, int(round(p_lo)), n // 5, n // 3]))
     return {'fs': fs, 'f_range': [f_lo, f_hi], 'sig': sig, 'fk': fk, 'boundary': bnd,
             'first': draw(st.sampled_from(['peak', 'trough', None])), 'pad': draw(st.sampled_from([True, True, False])),
-            'dtype': draw(st.sampled_from(['float64'] * 5 + ['float32', 'int64', 'int16-rails', 'uint16']))}
+            'dtype': draw(st.sampled_from(['float64'] * 5 + ['float32', 'int64', 'int16-rails', 'uint16'])),
+            'np_scalars': draw(st.integers(0, 3)) == 0}
 
 
 def cast(x, kind):
@@ -75,6 +76,13 @@ def check(case, rec):
     kwargs = dict(boundary=bnd, first_extrema=first, pad=pad)
     if fk is not None:
         kwargs['filter_kwargs'] = gen.copy_json(fk)
+    if case.get('np_scalars'):
+        # the same values as numpy scalars (settings read from an array / a pandas row)
+        kwargs['boundary'] = np.int64(bnd)
+        kwargs['pad'] = np.bool_(pad)
+        fs = np.float64(fs)
+        if fk and 'n_cycles' in fk:
+            kwargs['filter_kwargs'] = {'n_cycles': np.int64(fk['n_cycles'])}
     peaks, troughs = guarded(find_extrema, xin, fs, fr, **kwargs)
     peaks = np.asarray(peaks)
     troughs = np.asarray(troughs)
@@ -96,7 +104,7 @@ def check(case, rec):
                 raise Violation('second-configuration-differs-from-reference', 'after a call with filter_kwargs=%r, the call with %r (pad=%s) deviates from the reference' % (fk, fk2, pad))
             rec.label('second-configuration')
     rec.label(*gen.signal_classes(case['sig']))
-    rec.label('dtype:' + case.get('dtype', 'float64'), 'first:%s' % first, 'pad:%s' % pad, 'boundary:%s' % ('0' if bnd == 0 else '>0'),
+    rec.label('args:numpy-scalars' if case.get('np_scalars') else 'args:python', 'dtype:' + case.get('dtype', 'float64'), 'first:%s' % first, 'pad:%s' % pad, 'boundary:%s' % ('0' if bnd == 0 else '>0'),
               'filt:' + ('default' if not fk else ('n_seconds' if 'n_seconds' in fk else 'n_cycles')))
     for name, got in (('peaks', peaks), ('troughs', troughs)):
         if got.ndim != 1 or got.dtype.kind not in 'iu':
